@@ -340,6 +340,36 @@ func checkC12(R *Run) {
 		}
 	}
 
+	// ---- chat-format: the two format strings and their arguments
+	if fn := byNum[105]; fn != nil {
+		want := map[string]bool{"\r%13.13s:  %s": false, "\r*** %s %s": false}
+		for _, ci := range callsIn(fn) {
+			c := ci.Common()
+			if calleeName(c) != "fmt.Sprintf" {
+				continue
+			}
+			f, _ := constString(c.Args[0])
+			if _, isWanted := want[f]; !isWanted {
+				continue
+			}
+			args := callArgsFlat(c)[1:]
+			okArgs := len(args) == 2
+			if okArgs {
+				n0, _ := loadedField(stripConv(args[0]))
+				okArgs = n0 == "hotline.ClientConn.UserName" && P.requestOrigin(args[1]) == "FieldData"
+				if u, isU := stripConv(args[0]).(*ssa.UnOp); isU {
+					if fa, isFa := u.X.(*ssa.FieldAddr); isFa && fa.X != ssa.Value(fn.Params[0]) {
+						okArgs = false
+					}
+				}
+			}
+			if okArgs {
+				want[f] = true
+			}
+		}
+		R.check(want["\r%13.13s:  %s"] && want["\r*** %s %s"], "chat-truncate", fname(fn)+": line format", P.pos(fn.Pos()), "\\r%13.13s:  %s and \\r*** %s %s with (sender's name, request text)", fmt.Sprintf("the chat line is not built with the protocol's two formats from (sender's UserName, request's text): %v", want))
+	}
+
 	// ---- leave-before-notify
 	if fn := byNum[116]; fn != nil {
 		var leave, members ssa.CallInstruction
